@@ -28,6 +28,12 @@ def run(ctx):
         "UDP burst family: 2..32 announces with distinct info-hashes through ONE transport/socket, held by the tracker and answered back-to-back "
         "(with duplicates, in other order), each reply with content derived from its info-hash; a second wave is answered one by one with "
         "duplicates right behind each reply",
+        "UDP connection ids: every scripted BEP 15 tracker answers its connect requests with ids from a class sequence (0, 1, all ones, sign "
+        "bit, the protocol magic, half-zero words, hashed 64-bit values; the next class at every connect); the udpconn family (real UDP "
+        "clients as tier members, mixed ok / error-packet / garbage answers, 300 ms back-off) and the latejoin variant of the sharing family "
+        "(second torrent starts on the live connection, both re-announce on it) put several announces on ONE live connection for every class; "
+        "C16.retry.hang: a call into a real tracker client whose scripted server answers at once ends within scripted latency (+ the HTTP "
+        "client's time-out) + slack - a single UDP datagram lost on loopback would be misread as a hang (not seen so far)",
         "reply fuzz: fixed tables of malformed HTTP bodies / UDP datagram sequences plus seeded random mutations; 'read beyond the limit' is judged "
         "by the bytes the scripted server could push (limit + 12 MiB of kernel buffering); IPv6 literals in dictionary-model replies are counted, not judged",
     ]
@@ -36,7 +42,8 @@ def run(ctx):
     tp = ctx.path("c16.ndjson")
     args = ["-seed", str(ctx.seed), "-out", tp, "-root", ctx.path("drv", "x"), "-par", str(ctx.pick(14, 16)),
             "-tcdepth", str(ctx.pick(7, 9)), "-tcdepth3", str(ctx.pick(0, 7)),
-            "-ntier", str(ctx.pick(27, 162)), "-nshare", str(ctx.pick(3, 9)), "-nsess", str(ctx.pick(0, 6)), "-nfuzz", str(ctx.pick(60, 1500))]
+            "-ntier", str(ctx.pick(27, 162)), "-nshare", str(ctx.pick(4, 12)), "-nconn", str(ctx.pick(8, 32)),
+            "-nsess", str(ctx.pick(0, 6)), "-nfuzz", str(ctx.pick(60, 1500))]
     # TLC as generator: every ok/fail answer pattern of length L over the announces of a tier (replayed for 2 and 3 members)
     pats, _ = ctx.tlc_gen("MC_AnnounceGen", ctx.pick("MC_AnnounceGen_5.cfg", "MC_AnnounceGen_8.cfg"))
     if len(pats) != ctx.pick(32, 256):
@@ -51,9 +58,12 @@ def run(ctx):
             ("asis", "MC_Announce_tier2_asis.cfg", {"expect_tag": ["C16.tier.next", "C16.tier.conc"]}),
             ("asis", "MC_Announce_conc_asis.cfg", {"expect_tag": ["C16.tier.conc", "C16.tier.next", "C16.tier.sticky"]}),
             ("pass", "MC_Announce_udp.cfg", {}),
-            ("asis", "MC_Announce_udp_asis.cfg", {"expect_live": True})]
+            ("asis", "MC_Announce_udp_asis.cfg", {"expect_live": True}),
+            # the tracker picks the connection id (0 included): a request waits for a connection only while the connect is under way
+            ("mut", "MC_Announce_udp_mut_connid0.cfg", {"expect_inv": "NoParked"})]
     if not ctx.quick():
         jobs += [("pass", "MC_Announce_tier.cfg", {"timeout": 2400}), ("pass", "MC_Announce_udp_mid.cfg", {"timeout": 2400}),
+                 ("pass", "MC_Announce_udp_cid.cfg", {"timeout": 2400}),      # two connection ids (0 and another), connections expire
                  ("asis", "MC_Announce_tier_asis.cfg", {"expect_tag": ["C16.tier.next", "C16.tier.conc"]})]
     base.mc_all(ctx, jobs)
     results = join()
@@ -112,6 +122,16 @@ def account(ctx, scs):
                 if d["tp"] == "udpburst":
                     ob["C16.reply.burst"] += 2 * d["burst"]
             continue
+        ob["C16.retry.hang"] += sum(1 for _, d in s["lines"] if d["op"] == "cret")
+        cids = [d["cid"] for _, d in s["lines"] if d["op"] == "note" and d.get("what") == "connect-request"]
+        for c in cids:
+            cls["connection_id=%s" % c] += 1
+        if s["kind"] == "udpshare":
+            cls["share_variant=%s" % s["init"].get("meta", {}).get("variant")] += 1
+        udpk = {i + 1 for i, x in enumerate(s["init"]["trk"]) if x["udp"]}
+        per = collections.Counter(d["k"] for d in anns if d["k"] in udpk)
+        if "zero" in cids[:1] and per and max(per.values()) >= 2:
+            cls["announces_on_live_connection_with_id_0"] += max(per.values()) - 1
         key = (s["kind"], tuple((d["k"], d["ev"], d["res"]) for d in anns))
         fo = sum(1 for a, b in zip(anns, anns[1:]) if a["res"] != "ok")
         ctx.count_case(key, fo > 0 or s["kind"] == "udpshare")
@@ -133,6 +153,8 @@ def account(ctx, scs):
                         "announces": [(d["now"], d["k"], d["ev"], d["res"]) for _, d in s["lines"] if d["op"] == "ann"][:12]})
             break
     if (ob["C16.reply"] == 0 or ob["C16.tier.next"] == 0 or cls["kind=udpshare"] == 0 or cls["three_full_cycles_of_failures"] == 0
-            or ob["C16.reply.burst"] == 0 or cls["tierconc_with_overlapping_failures_on_one_member"] == 0 or cls["kind=overlap"] == 0):
+            or ob["C16.reply.burst"] == 0 or cls["tierconc_with_overlapping_failures_on_one_member"] == 0 or cls["kind=overlap"] == 0
+            or cls["kind=udpconn"] == 0 or cls["share_variant=latejoin"] == 0 or ob["C16.retry.hang"] == 0
+            or cls["announces_on_live_connection_with_id_0"] == 0):
         return "vacuous run: %s %s" % (dict(ob), dict(cls))
     return None
